@@ -77,35 +77,43 @@ def r06_1(ctx):
         raise AnchorError("no non-None store into _user_value found")
     viv = repo.func(f"{CORE}:Symbol.value_is_valid")
     ctx.analysed(viv.qual)
-    tts = type_tests_in(repo, viv.node)
-    seen: Set[str] = set()
-    for t in tts:
-        seen |= t.types
+    # what the predicate accepts, read as a boolean function of its atomic tests (one expression, guard clauses or an if
+    # chain - the spelling does not matter): for every type, acceptance implies the form check of that type
+    from .common import AcceptCondition
+    ac = AcceptCondition(viv.node)
+    type_atoms = {t: f"self.orig_type == {t}" for t in ALL5}
+    if not all(a in ac.atoms for a in type_atoms.values()):
+        raise AnchorError(f"value_is_valid: type tests {sorted(set(type_atoms.values()) - set(ac.atoms))} not found (atoms: {ac.atoms})")
     need = {
-        "BOOL": lambda s: "in (2, 0)" in s or "in (0, 2)" in s,
-        "INT": lambda s: "_is_base_n(value, 10)" in s,
-        "HEX": lambda s: "_is_base_n(value, 16)" in s and "int(value, 16) >= 0" in s,
-        "FLOAT": lambda s: "is_float(value)" in s,
-        "STRING": lambda s: True,
+        "BOOL": [["value in (2, 0)", "value in (0, 2)"]],
+        "INT": [["type(value) is str", "isinstance(value, str)"], ["_is_base_n(value, 10)"]],
+        "HEX": [["type(value) is str", "isinstance(value, str)"], ["_is_base_n(value, 16)"], ["int(value, 16) >= 0", "int(value, 16) < 0"]],
+        "FLOAT": [["type(value) is str", "isinstance(value, str)"], ["is_float(value)"]],
+        "STRING": [["type(value) is str", "isinstance(value, str)"]],
     }
+    neg = {"int(value, 16) < 0"}
     for ty in sorted(ALL5):
         construct = f"Symbol.value_is_valid/{ty} clause"
-        # the conjunction that contains the type test
-        ok = False
-        for t in tts:
-            if ty in t.types and t.positive:
-                par = repo.parent(t.node)
-                txt = ast.unparse(par) if isinstance(par, ast.BoolOp) and isinstance(par.op, ast.And) else ast.unparse(t.node)
-                if need[ty](txt):
-                    ok = True
-        if ok:
-            ctx.ok(construct, viv.loc())
+        fixed = {a: (t == ty) for t, a in type_atoms.items()}
+        bad_v = None
+        accepts_something = False
+        for v in ac.valuations(fixed):
+            if not ac.accept(v):
+                continue
+            accepts_something = True
+            for alts in need[ty]:
+                present = [a for a in alts if a in v]
+                if not present or not any((v[a] if a not in neg else not v[a]) for a in present):
+                    bad_v = (alts, {k: val for k, val in v.items() if k not in type_atoms.values()})
+                    break
+            if bad_v:
+                break
+        if bad_v:
+            ctx.bad(construct, f"a {ty} value is accepted without `{bad_v[0][0]}` holding (accepted under {bad_v[1]})", viv.loc())
+        elif not accepts_something:
+            ctx.bad(construct, f"no {ty} value is accepted at all", viv.loc())
         else:
-            ctx.bad(construct, f"value_is_valid has no (complete) form check for {ty}", viv.loc())
-    construct = "Symbol.value_is_valid/non-bool values must be str"
-    txt = ast.unparse(viv.node)
-    (ctx.ok(construct, viv.loc()) if "type(value) is str" in txt or "isinstance(value, str)" in txt
-     else ctx.bad(construct, "non-bool values are no longer required to be strings", viv.loc()))
+            ctx.ok(construct, viv.loc())
 
 
 def _clamp_if(body: List[ast.stmt], result: str) -> Optional[ast.If]:
